@@ -81,8 +81,10 @@ func (h *Handler) spoofLoop(addr packet.Addr) {
 	startTime := time.Now()
 	nTimes := 0
 	for {
+		// the hunt list is keyed by MAC: look up our own entry. (A lookup by IP finds the entry of
+		// another hunted MAC that uses the same IPv4 and keeps this loop alive after StopHunt.)
 		h.arpMutex.Lock()
-		targetAddr, hunting := h.findHuntByIP(addr.IP)
+		targetAddr, hunting := h.huntList[string(addr.MAC)]
 		h.arpMutex.Unlock()
 
 		if !hunting || h.closed {
